@@ -31,7 +31,7 @@ ASSUMPTIONS = [
 REQUIRED_MONITORS = ['contract:Extractor.extract', 'oracle:covers', 'contract:escaped_bracket',
                      'reach:batch_extract', 'reach:random.sample']
 REQUIRED_CLASSES = ['dialect=perl', 'dialect=portable', 'dialect=grep', 'form=list', 'form=dict',
-                    'form=series', 'form=serieslist', 'sampling=effective']
+                    'form=series', 'form=serieslist', 'form=catseries', 'sampling=effective']
 
 _counter = collections.Counter()
 _installed = False
